@@ -184,3 +184,80 @@ Proof.
   intros limit len [|]; unfold run_count_overflow; cbv -[Z.eqb Z.ltb Z.leb Z.add Z.sub Z.mul Z.opp];
     destruct (limit =? 0); reflexivity.
 Qed.
+
+(* Trait.heapInUseOverflow / sysOverflow: no limit -> false; else the figure runtime.ReadMemStats reports (read after
+   the call) exceeds the limit *)
+Definition mem_prims (heap sys : Z) : prims := fun f args s =>
+  match f, args with
+  | "runtime.ReadMemStats", [VRef m] =>
+      Some (VNil, emit "ReadMemStats" [] (bind (m ++ ".HeapInuse") (VZ heap) (bind (m ++ ".Sys") (VZ sys) s)))
+  | _, _ => None
+  end.
+
+Definition mem_var (f : gfunc) : string :=
+  match gf_body f with
+  | _ :: GAssign [GId m] _ :: _ => m
+  | _ => "?"
+  end.
+
+Definition run_mem_overflow (f : gfunc) (limit_leaf : string) (limit heap sys : Z) : option (bool * nat) :=
+  run (mem_prims heap sys) no_fcmp no_loop
+      (fun vs s => match vs with [VB b] => Some (b, length (eff s)) | _ => None end) (fun _ => None) f [VPtr true "c"]
+      [(limit_leaf, VZ limit); (mem_var f ++ ".HeapInuse", VStr "not read yet"); (mem_var f ++ ".Sys", VStr "not read yet")]
+      (fun _ => None).
+
+Theorem tie_mem_overflow : forall limit heap sys,
+  run_mem_overflow fn_Trait_heapInUseOverflow "c.Config.HeapInUseSoftLimit" limit heap sys =
+    Some (if limit =? 0 then (false, 0%nat) else (limit <? heap, 1%nat)) /\
+  run_mem_overflow fn_Trait_sysOverflow "c.Config.SysMemSoftLimit" limit heap sys =
+    Some (if limit =? 0 then (false, 0%nat) else (limit <? sys, 1%nat)).
+Proof.
+  intros limit heap sys; split; unfold run_mem_overflow; cbv -[Z.eqb Z.ltb Z.leb Z.add Z.sub Z.mul Z.opp];
+    destruct (limit =? 0); reflexivity.
+Qed.
+
+(* ---- Trait.janitor and Trait.reportItemsCount: one turn of the `for { select { ... } }` loop.  The runtime's choice
+   between the timer and the Closed channel is the oracle "$select"; everything else is the source's. ---- *)
+Definition while_body (f : gfunc) : list gstmt :=
+  match gf_body f with [GWhile _ b] => b | _ => [] end.
+
+Definition jan_prims (choice len : Z) : prims := fun f args s =>
+  match f, args with
+  | "time.After", [VZ d] => Some (VPtr true "timer", emit "After" [VZ d] s)
+  | "$select", [VPtr true "timer"; VPtr true "closed"] => Some (VZ choice, s)
+  | "c.invokeCleanup", [] => Some (VNil, emit "invokeCleanup" [] s)
+  | "context.Background", [] => Some (VPtr true "bg", s)
+  | "c.Log.logDebug", _ :: VStr m :: _ => Some (VNil, emit "log" [VStr m] s)
+  | "c.Len", [] => Some (VZ len, s)
+  | "float64", [VZ z] => Some (VF (FOfZ z), s)
+  | "c.Stat.Set", [_; VStr m; v; VStr "name"; _] => Some (VNil, emit "stat" [VStr m; v] s)
+  | _, _ => None
+  end.
+
+(* (did the goroutine return?, what it did) *)
+Definition run_turn (f : gfunc) (interval_leaf : string) (interval : Z) (debug stat : bool) (choice len : Z)
+  : option (bool * list effect) :=
+  exec_list (jan_prims choice len) no_fcmp no_loop (fun _ s => Some (true, eff s)) (fun _ => None) 40 (while_body f)
+    (mkSt [(interval_leaf, VZ interval); ("c.Closed", VPtr true "closed"); ("c.Log.logDebug", VPtr debug "logDebug");
+           ("c.Stat", VPtr stat "Stat"); ("c.Config.Name", VStr "name")] [] [] [])
+    (fun s => Some (false, eff s)).
+
+(* the janitor: waits DeleteExpiredJobInterval (re-read on every turn), then runs exactly one cleanup cycle and goes
+   round again; on Closed it [logs and] returns without another cycle *)
+Theorem tie_janitor : forall interval debug stat len,
+  run_turn fn_Trait_janitor "c.Config.DeleteExpiredJobInterval" interval debug stat 0 len =
+    Some (false, [("After", [VZ interval]); ("invokeCleanup", [])]) /\
+  run_turn fn_Trait_janitor "c.Config.DeleteExpiredJobInterval" interval debug stat 1 len =
+    Some (true, ("After", [VZ interval]) :: (if debug then [("log", [VStr "closing cache janitor"])] else [])).
+Proof. intros interval [|] [|] len; split; reflexivity. Qed.
+
+(* the items counter: every ItemsCountReportInterval it publishes Len() as the gauge cache_items (and never touches
+   an entry); on Closed it publishes once more and returns *)
+Theorem tie_report_items_count : forall interval debug stat len,
+  run_turn fn_Trait_reportItemsCount "c.Config.ItemsCountReportInterval" interval debug stat 0 len =
+    Some (false, ("After", [VZ interval]) :: (if debug then [("log", [VStr "cache items count"])] else [])
+                 ++ (if stat then [("stat", [VStr "cache_items"; VF (FOfZ len)])] else [])) /\
+  run_turn fn_Trait_reportItemsCount "c.Config.ItemsCountReportInterval" interval debug stat 1 len =
+    Some (true, ("After", [VZ interval]) :: (if debug then [("log", [VStr "closing cache items counter goroutine"])] else [])
+                ++ (if stat then [("stat", [VStr "cache_items"; VF (FOfZ len)])] else [])).
+Proof. intros interval [|] [|] len; split; reflexivity. Qed.
